@@ -114,8 +114,13 @@ func ZZ_C18_PoolHistory() {
 				s.live = false // the program is over; an auto-released writer is dropped
 			}
 			zzverif.Reach("failed-continues")
-		case 4: // the owner of an explicitly owned writer frees it (documented duty)
-			zzverif.Assume(s.live && !s.pooled)
+		case 4: // the owner frees its writer: the documented duty for an explicitly owned one, and the way
+			// a program gives up midway on a pooled one that it still holds (not yet auto-released)
+			zzverif.Assume(s.live && !s.built)
+			if s.pooled && !s.failed && zzverif.Bool() {
+				m := s.w.Message() // gives up with a message open
+				_ = m.Field(3).Byte(1)
+			}
 			s.w.Free()
 			s.live = false
 		}
